@@ -186,6 +186,49 @@ pub fn emit(e: &mut Emitter, seed: u64, thorough: bool) {
         layers(e, "mds-lane0-double-carry", s, &mut r);
         made += 1;
     }
+    // carry-shaped inputs of the fast partial layer: d = Σ state[i]·w_hat[r][i−1] + state[0]·(M00) is a sum
+    // of twelve 128-bit products. Solve one lane so that the HIGH words of the products sum to a value
+    // whose 96-bit reduction lands just below 2^64 (a non-canonical word) while the LOW words sum past
+    // 2^64 — the recombination `(reduced_hi << 64) + low_sum` then needs its 129th bit.
+    {
+        let mut made = 0;
+        let mut tries = 0;
+        while made < (if thorough { 300 } else { 40 }) && tries < 100_000 {
+            tries += 1;
+            let pr = r.below(N_PARTIAL_ROUNDS as u64) as usize;
+            let w: Vec<u128> = (0..11).map(|i| <F as Poseidon>::FAST_PARTIAL_ROUND_W_HATS[pr][i] as u128).collect();
+            let mut st = [0u64; 12];
+            for x in st.iter_mut() { *x = if r.coin() { r.next() } else { r.below(P) }; }
+            let j = 1 + r.below(11) as usize;            // the lane that is solved (multiplier w[j-1])
+            let tj = w[j - 1];
+            if tj < (1u128 << 40) { continue; }
+            let m00 = (<F as Poseidon>::MDS_MATRIX_CIRC[0] + <F as Poseidon>::MDS_MATRIX_DIAG[0]) as u128;
+            let prod = |i: usize, v: u64| -> u128 { if i == 0 { v as u128 * m00 } else { v as u128 * w[i - 1] } };
+            let h_rest: u128 = (0..12).filter(|&i| i != j).map(|i| prod(i, st[i]) >> 64).sum();
+            let k = 1 + r.below(11) as u128;             // reduced high word = 2^64 − k
+            // total high sum N = c·2^64 + X with X + c·EPS = 2^64 − k (no wrap)
+            let c0 = h_rest >> 64;
+            let mut done = false;
+            for c in c0..c0 + 3 {
+                let Some(x) = ((1u128 << 64) - k).checked_sub(c * EPS as u128) else { continue };
+                let n = (c << 64) + x;
+                if n < h_rest { continue; }
+                let h = n - h_rest;
+                if h >= tj { continue; }
+                let sj = ((h << 64) + tj - 1) / tj;
+                if sj > u64::MAX as u128 || (sj * tj) >> 64 != h { continue; }
+                st[j] = sj as u64;
+                done = true;
+                break;
+            }
+            if !done { continue; }
+            let fs: [F; 12] = st.map(F);
+            let ss = join(st.iter());
+            e.case("mdsfast-high-sum-just-below-2^64", format!("c13 mdsfast {pr} {ss}"), || raw(&F::mds_partial_layer_fast(&fs, pr)));
+            made += 1;
+        }
+        e.count(&format!("mdsfast boundary states made: {made}"));
+    }
     // sponge: every length 0..=40 and some longer; outputs beyond one squeeze
     let lens: Vec<usize> = (0..=40).chain([63, 64, 65, 100, 135, 200]).collect();
     for &len in &lens {
